@@ -1,10 +1,10 @@
 package main
 
 import (
-	"go/constant"
-	"go/types"
 	"go/ast"
+	"go/constant"
 	"go/token"
+	"go/types"
 	"sort"
 	"strings"
 
@@ -22,7 +22,7 @@ type Loop struct {
 	AllHeaps  bool
 	Writers   map[string][]*ssa.Alloc // per heap key: slice variables whose rows the loop may write
 	Unknown   map[string]bool         // per heap key: some write goes through a slice the analysis cannot name
-	Maps      bool // some map may be updated
+	Maps      bool                    // some map may be updated
 	Chans     bool
 	KCell     interface{} // cell holding the range position
 	KOff      int         // $k = cell + KOff at the loop head
